@@ -263,4 +263,29 @@ PROPS = {
             "job allocations of different job names are different objects",
         ],
     },
+    "C21": {
+        "category": "other",
+        "harness_modes": ["crosscheck"],
+        "explanation": "Fragment. Proved for every tree, path and history of the registry: (1) _RemotePathMapper.get walks the tree along the components of the "
+        "path (spec function node_at, lemmas missing_component_ends_the_walk / walk_defined_on_prefixes by ghost induction), returns nothing for an unknown path, "
+        "returns only locations stored at the node of the path under the requested deployment and location name that pass the type filter, and — when deployment and "
+        "name are both given (the availability question) — leaves out none of them; (2) DefaultDataManager.get_data_locations reports exactly the non-INVALID ones of "
+        "those; (3) DefaultDataManager.get_source_location returns None or a location that is PRIMARY at the moment it is returned (every `await available.wait()` is "
+        "modelled as arbitrary interference on every data_type) and is one of the reported locations; (4) _RemotePathMapper.invalidate_location, under the "
+        "representation invariant `filed` (a location is stored under its own deployment/name and its own path is a path of the tree) and `mirrored` (valid_paths has "
+        "the same keys), raises no KeyError, marks every location stored at the node for that location INVALID, never makes anything valid again and changes no location "
+        "of another deployment or location name (\"nothing on other locations\"), recursion by its own contract. NOT decided by proof: that invalidation reaches "
+        "everything BENEATH the path (needs the invariant that every stored location is also stored at the node of its own path — exactly what the recorded finding "
+        "KF-C21-duplicate-registration breaks), _RemotePathMapper.put / register_path / register_relation (setdefault chains and reversed() on a dict are outside the "
+        "verifier's subset), termination of the recursion. Those are covered by the bounded run-time comparison of random register / relate / invalidate histories "
+        "(wrapped locations with mount points included) against a reference model written from the statement (harness/C21.py).",
+        "assumptions": [
+            "extern contracts: pathlib.Path(path).parts is a function of the path text (parts_of); asyncio.Event.wait() may change any DataLocation.data_type",
+            "DataLocation.deployment / .name are inlined from streamflow/core/data.py (properties)",
+            "recursive spec function node_at reads _RemotePathNode.children; it is only used in functions proved not to write that field",
+            "the representation invariants `filed` and `mirrored` are preconditions of invalidate_location; they are established by put(), which is not under contract (run-time check only)",
+            "dict.get(k, set()) on a dict of lists is read as the empty list (the default is only iterated)",
+            "termination of invalidate_location's recursion is not proved",
+        ],
+    },
 }
